@@ -310,7 +310,7 @@ func (g *Gen) tagFor(e *helperEntry) int {
 	}
 	switch g.Intn(10) {
 	case 0:
-		return g.Pick(0x20, 0x21, 0x7f, 0x80, 0xff)
+		return g.Pick(0x20, 0x21, 0x7f, 0x80, 0xff, g.Range(0x20, 0xff))
 	case 1:
 		return 0
 	case 2:
